@@ -327,14 +327,26 @@ Section Passes.
   Fixpoint nodupb (l : list string) : bool :=
     match l with [] => true | x :: r => negb (smem x r) && nodupb r end.
 
-  (* iteration order of that frozenset, as observed on the real object *)
+  (* sorted(<set of str>): insertion sort (String.leb is Python's order on ASCII names) *)
+  Fixpoint sinsert (x : string) (l : list string) : list string :=
+    match l with
+    | [] => [x]
+    | y :: r => if String.leb x y then x :: l else y :: sinsert x r
+    end.
+  Definition ssort (l : list string) : list string := fold_right sinsert [] l.
+
+  (* shape switch: `for var_name in sorted(read_and_written)` (true) or the frozenset itself (false) *)
+  Variable sd_sorted : bool.
+  (* iteration order of that frozenset, as observed on the real object (used when not sorted) *)
   Variable ords : list (string * list var).
   Definition rw_order (s : tstmt) : option (list var) :=
     let c := read_and_written s in
-    match assoc (tid s) ords with
-    | None => Some c
-    | Some o => if subset o c && subset c o && nodupb o then Some o else None
-    end.
+    if sd_sorted then Some (ssort c)
+    else
+      match assoc (tid s) ords with
+      | None => Some c
+      | Some o => if subset o c && subset c o && nodupb o then Some o else None
+      end.
 
   (* pymbolic.substitute(expr, dict(substs)): variables by name -- the function symbol of a
      call is a Variable too *)
@@ -596,12 +608,12 @@ End Passes.
    (names from gen/GenC07.v); every pass builds its generators afresh from its input tree  *)
 
 Section Pipeline.
-  Variable lhs_sub_reads loop_bound_reads seed_node_vars fci_passes_cond ite_flag_first : bool.
+  Variable lhs_sub_reads loop_bound_reads seed_node_vars sd_sorted fci_passes_cond ite_flag_first : bool.
   Variable ords : list (string * list var).
 
   Definition pass_named (name : string) (t : tree) : tres (tree * gst) :=
     if String.eqb name "eliminate_self_dependencies"
-    then eliminate_self_dependencies lhs_sub_reads loop_bound_reads seed_node_vars ords t
+    then eliminate_self_dependencies lhs_sub_reads loop_bound_reads seed_node_vars sd_sorted ords t
     else if String.eqb name "isolate_function_arguments"
     then isolate_function_arguments lhs_sub_reads loop_bound_reads seed_node_vars t
     else if String.eqb name "isolate_function_calls"
